@@ -1,6 +1,6 @@
 /*@harness
-{"tier":"quick","mode":"bounded(function tables <= 3 entries, <= 2 inherits per program, inheritance depth <= 2; names, flags, offsets symbolic)","tus":["src/apply.c"],"dfcc":false,"functions":["find_function"],
- "flags":["--bounds-check","--pointer-check"],"unwind":9,"timeout":900,
+{"tier":"quick","mode":"bounded(function tables <= 2 entries, <= 2 inherits per program, inheritance depth <= 2; names, flags, offsets symbolic)","tus":["src/apply.c"],"dfcc":false,"functions":["find_function"],
+ "flags":["--bounds-check","--pointer-check"],"unwind":5,"timeout":900,
  "expect":["h_find_function.assertion","find_function.pointer_dereference"],
  "native":{},
  "notes":"bounded stand-in: binary search + recursive inherit search compared with an exhaustive oracle over a small inheritance graph"}
@@ -31,14 +31,14 @@ static int defined_here(int k, const char *name, int *idx) {
 
 void h_find_function(void) {
   V_DECL(int, nf0); V_DECL(int, nf1); V_DECL(int, nf2); V_DECL(int, nf3);
-  V_ASSUME(0 <= nf0 && nf0 <= 3 && 0 <= nf1 && nf1 <= 3 && 0 <= nf2 && nf2 <= 3 && 0 <= nf3 && nf3 <= 3);
+  V_ASSUME(0 <= nf0 && nf0 <= 2 && 0 <= nf1 && nf1 <= 2 && 0 <= nf2 && nf2 <= 2 && 0 <= nf3 && nf3 <= 2);
   int a[4][3], r[4][3];
   for (int k = 0; k < 4; k++) {
     V_DECL(int, a0); V_DECL(int, a1); V_DECL(int, a2); V_DECL(int, r0); V_DECL(int, r1); V_DECL(int, r2);
-    V_ASSUME(0 <= a0 && a0 < a1 && a1 < a2 && a2 < 8);           /* tables are sorted by name pointer, no duplicates */
-    V_ASSUME(0 <= r0 && r0 < 8 && 0 <= r1 && r1 < 8 && 0 <= r2 && r2 < 8);
+    V_ASSUME(0 <= a0 && a0 < a1 && a1 < a2 && a2 < 4);           /* tables are sorted by name pointer, no duplicates */
+    V_ASSUME(0 <= r0 && r0 < 3 && 0 <= r1 && r1 < 3 && 0 <= r2 && r2 < 3);
     mk_prog(k, k == 0 ? nf0 : k == 1 ? nf1 : k == 2 ? nf2 : nf3, a0, a1, a2, r0, r1, r2);
-    for (int j = 0; j < 8; j++) { V_DECL(v_ushort, fl); F[k][j] = fl; }
+    for (int j = 0; j < 3; j++) { V_DECL(v_ushort, fl); F[k][j] = fl; }
   }
   V_DECL(int, ni0); V_DECL(int, ni1); V_ASSUME(0 <= ni0 && ni0 <= 2 && 0 <= ni1 && ni1 <= 1);
   P[0].num_inherited = (unsigned short)ni0; P[1].num_inherited = (unsigned short)ni1; P[2].num_inherited = 0; P[3].num_inherited = 0;
@@ -46,7 +46,7 @@ void h_find_function(void) {
   V_DECL(v_ushort, fo1); V_DECL(v_ushort, vo1); V_DECL(v_ushort, fo2); V_DECL(v_ushort, vo2); V_DECL(v_ushort, fo3); V_DECL(v_ushort, vo3);
   I[0][0].function_index_offset = fo1; I[0][0].variable_index_offset = vo1; I[0][1].function_index_offset = fo2; I[0][1].variable_index_offset = vo2;
   I[1][0].function_index_offset = fo3; I[1][0].variable_index_offset = vo3;
-  V_DECL(int, want); V_ASSUME(0 <= want && want < 8);
+  V_DECL(int, want); V_ASSUME(0 <= want && want < 4);
   const char *name = NAME(want);
   int index = -1, fio = -1, vio = -1;
   program_t *p = find_function(&P[0], name, &index, &fio, &vio);
@@ -74,5 +74,5 @@ void h_find_function(void) {
       (void)p2_blocks; (void)i3;
     }
   }
-  V_COVER(p == &P[3]); V_COVER(p == &P[0] && index == 2); V_COVER(p == 0 && ni0 == 2); V_COVER(p == &P[2]);
+  V_COVER(p == &P[3]); V_COVER(p == &P[0] && index == 1); V_COVER(p == 0 && ni0 == 2); V_COVER(p == &P[2]);
 }
